@@ -101,7 +101,7 @@ PROPS = {
     "C09": dict(
         title="Every execution terminates, whatever order nodes finish in",
         core=["SCH-PROGRESS", "SCH-EXIT", "SCH-RSET"],
-        aux=["SCH-EMPTYWAIT", "SCH-DEACT", "GT-CYCLE", "ERR-CHECK", "SCH-COUNT", "GT-DEBUGINC", "SCH-DONE", "GT-NORECURSE", "SCH-ACTIVE", "REF-NONEKEY", "LCK-PRED", "SIB-BLOCK"],
+        aux=["SCH-EMPTYWAIT", "SCH-DEACT", "GT-CYCLE", "ERR-CHECK", "SCH-COUNT", "GT-DEBUGINC", "SCH-DONE", "GT-NORECURSE", "SCH-ACTIVE", "REF-NONEKEY", "LCK-PRED"],
         explanation="Ranking argument (|graph|, |runnable|) per loop path: every feasible path shrinks the graph, moves a node "
                     "from runnable to in flight, or passes a wait that provably blocks on a non-empty set; no exit but 'graph "
                     "empty'; released roots are never dropped; cycles rejected at construction.",
